@@ -372,10 +372,40 @@ Proof.
     + rewrite Eq. reflexivity.
     + reflexivity.
   - destruct (table_value (ty, dots, None)) as [tv|]; [|reflexivity].
+    assert (Ed : (Qabs (inject_Z (k * d) / inject_Z (k * div) - tv) == Qabs (inject_Z d / inject_Z div - tv))%Q)
+      by (rewrite Eq; reflexivity).
+    rewrite (Qle_bool_comp thousandth thousandth (Qabs (inject_Z (k * d) / inject_Z (k * div) - tv))
+                           (Qabs (inject_Z d / inject_Z div - tv)) (Qeq_refl _) Ed).
     rewrite (Qle_bool_comp (Qabs (inject_Z (k * d) / inject_Z (k * div) - tv))
-                           (Qabs (inject_Z d / inject_Z div - tv))
-                           (thousandth + (1 # 1000000000)) (thousandth + (1 # 1000000000))).
-    + reflexivity.
-    + rewrite Eq. reflexivity.
-    + reflexivity.
+                           (Qabs (inject_Z d / inject_Z div - tv)) thousandth thousandth Ed (Qeq_refl _)).
+    reflexivity.
 Qed.
+
+(* the boundary of the known finding K1 in the judgement of the sweep: a table answer that does not convert back is
+   class 2 only STRICTLY within 1/1000 quarter of the table value it names -- whatever tolerance the code under test uses *)
+Lemma known_table_hit_strictly_within_eps_lemma d div ty dots :
+  classify_row d div (Some (ty, dots, None)) = 2 ->
+  exists tv, table_value (ty, dots, None) = Some tv
+    /\ (Qabs (inject_Z d / inject_Z div - tv) < 1 # 1000)%Q.
+Proof.
+  unfold classify_row. destruct (sym_to_num (ty, dots, None) div) as [v|]; [|discriminate].
+  destruct (Qeq_bool v (inject_Z d)); [discriminate|].
+  destruct (table_value (ty, dots, None)) as [tv|]; [|discriminate].
+  destruct (Qle_bool thousandth (Qabs (inject_Z d / inject_Z div - tv))) eqn:E.
+  - destruct (Qle_bool (Qabs (inject_Z d / inject_Z div - tv)) thousandth); discriminate.
+  - intros _. exists tv. split; [reflexivity|]. apply Qnot_le_lt. intros H.
+    apply Qle_bool_iff in H. unfold thousandth in E. congruence.
+Qed.
+
+(* ... and the class is not empty on either side: (15, 950) -> 256th is a known inexact hit (1/60800 quarter away);
+   (5761, 960) -> dotted whole, ONE division = 1/960 quarter away, is a violation, and the model of the code does not
+   give that answer; (469, 250) -> quarter with three dots is exactly 1/1000 away (class 5) *)
+Lemma one_division_off_is_a_violation_lemma :
+  classify_row 15 950 (Some ("256th"%string, 0, None)) = 2
+  /\ classify_row 5761 960 (Some ("whole"%string, 1, None)) = 4
+  /\ classify_row 5759 960 (Some ("whole"%string, 1, None)) = 4
+  /\ classify_row 28801 960 (Some ("long"%string, 3, None)) = 4
+  /\ classify_row 469 250 (Some ("quarter"%string, 3, None)) = 5
+  /\ estimate 5761 960 = ENone /\ estimate 28801 960 = ENone
+  /\ estimate 5760 960 = ESome ("whole"%string, 1, None).
+Proof. vm_compute. repeat split; reflexivity. Qed.
